@@ -8,6 +8,7 @@ rebuild."""
 import os
 import re
 import sys
+sys.path.insert(0, os.path.dirname(os.path.abspath(__file__)))
 
 REPO = "/repo/src"
 OUT = "/verif/lean/Jamm/Gen"
@@ -284,19 +285,32 @@ def gen_params():
     write_if_changed("Params.lean", "\n".join(txt))
 
 
+def poison(name, reason):
+    """a generated file whose elaboration fails, naming why: only the properties whose theorems import
+    this part of the generated model then report a broken obligation"""
+    msg = reason.replace('"', "'").replace("\n", " ")
+    write_if_changed(name, '/- GENERATION FAILED -/\nimport Jamm.Model.Steps\nimport Jamm.Model.Layout\nimport Jamm.Model.Params\n'
+                     'namespace Jamm.Gen\ntheorem translator_failed : False := by\n  fail "translator: %s"\nend Jamm.Gen\n' % msg)
+
+
 def main():
-    try:
-        gen_layout()
-        gen_hash_order()
-        gen_params()
-        extra = os.path.join(os.path.dirname(os.path.abspath(__file__)), "gen_steps.py")
-        if os.path.exists(extra):
-            import gen_steps
-            gen_steps.main()
-    except GenError as e:
-        print("GENERATION FAILED")
-        print("translator: " + str(e))
-        sys.exit(1)
+    import gen_steps
+    parts = [("Layout.lean", gen_layout), ("HashOrder.lean", gen_hash_order), ("Params.lean", gen_params),
+             ("Steps.lean", gen_steps.gen_steps), ("Sites.lean", gen_steps.gen_sites)]
+    failed = []
+    for name, fn in parts:
+        try:
+            fn()
+        except Exception as e:
+            if type(e).__name__ != "GenError":
+                raise
+            poison(name, str(e))
+            failed.append("%s: %s" % (name, e))
+    if failed:
+        print("GENERATION FAILED (partially)")
+        for f in failed:
+            print("translator: " + f)
+        sys.exit(3)
     print("gen ok")
 
 
